@@ -430,6 +430,9 @@ func didOps(e *didEnv, v didVariant) []explore.Op {
 			return tx(R2, &didtypes.MsgDeactivateDIDRequest{Did: d1, VerificationMethodId: e.vmID(d1, 2), Signature: []byte{0x30, 0x01, 0x02}, FromAddress: R2.Bech})
 		}},
 		update(d1, d1, "D10", "D10", 1, 0, R1),
+		explore.Op{Name: "Deactivate(d1,vm=d2#key1,k1,seq=seq(d2),via=R2)", Tx: func(w *world.World, m any) *world.TxSpec {
+			return tx(R2, &didtypes.MsgDeactivateDIDRequest{Did: d1, VerificationMethodId: e.vmID(d2, 1), Signature: e.sign(&didtypes.DIDDocument{Id: d1}, seqOf(m, d2), 1), FromAddress: R2.Bech})
+		}},
 		explore.Op{Name: "Update(d1,D5(d1),vm=d2#key1,k1,seq=seq(d2),via=R2)", Tx: func(w *world.World, m any) *world.TxSpec {
 			doc := e.doc("D5", d1)
 			return tx(R2, &didtypes.MsgUpdateDIDRequest{Did: d1, Document: doc, VerificationMethodId: e.vmID(d2, 1), Signature: e.sign(doc, seqOf(m, d2), 1), FromAddress: R2.Bech})
